@@ -3136,6 +3136,7 @@ func (b *Bundle) Compile(log logger.Log, timer *helpers.Timer, mangleCache map[s
 				verif.Gate("link.start", verifLinkKey(b.fs, i))
 				resultGroups[i] = link(&optionsClone, forked, log, b.fs, b.res, files, entryPoints,
 					b.uniqueKeyPrefix, findReachableFiles(files, entryPoints), dataForSourceMaps)
+				verif.Event("link.done", "cwd", b.fs.Cwd(), "i", i, "n", len(b.entryPoints))
 				timer.Join(forked)
 				waitGroup.Done()
 			}(i, entryPoint)
